@@ -93,7 +93,7 @@ def r2_handover(ctx, prog):
                 rp = q.pt(w, r)
                 if not q.reaches(w, tp, rp):
                     continue
-                ok = not w.cfg.exists_path(tp, rp, avoid=q.pts(w, marks))
+                ok = not w.cfg.exists_path(tp, rp, avoid=q.pts(w, marks) + [tp], edge_filter=q.correlated_filter(w, rp))
                 ctx.ob('C05.R2', '%s|mark-before-run' % w.name, ok,
                        'every path from the take to the task body passes the mark-running insert' if ok else
                        'a path from the take (%s) reaches the task body (%s) without doing_tasks_token.insert' % (w.loc(t['i']), w.loc(r['i'])),
